@@ -301,9 +301,11 @@ func init() {
 	Register("C12", &Scenario{
 		Name:   "lifecycle-crash",
 		Weight: 2,
-		Owns:   []string{"C12", "panic"},
-		New:    func() any { return &confPlan{} },
-		Gen:    genLifecyclePlan,
+		// a request that never gets its response, or a server that stops
+		// serving, is as much a failure of C12 as a crash: deadlocks count
+		Owns: []string{"C12", "panic", "deadlock", "stuck"},
+		New:  func() any { return &confPlan{} },
+		Gen:  genLifecyclePlan,
 		Cfg: func(tp *simrt.Tape, plan any) simrt.Config {
 			c := swarmCfg(tp, false)
 			c.PCTPoints = 4000
